@@ -288,7 +288,9 @@ rf_eval(const rf_rule *r, rf_dt t0, int64_t tend, int64_t *out, int max, int *am
 		}
 		pcur = p0;
 		const int64_t dend = tend / 86400 + 1;
-		for (int64_t d = pstart; d <= dend && !o.done; d++) {
+		/* run to the end of the period that contains the window's end, so that
+		 * BYSETPOS always sees complete periods */
+		for (int64_t d = pstart; !o.done; d++) {
 			int64_t p;
 			int y, m, dd;
 			switch (r->freq) {
@@ -301,6 +303,7 @@ rf_eval(const rf_rule *r, rf_dt t0, int64_t tend, int64_t *out, int max, int *am
 				rf_flush(&o, cand, nc);
 				nc = 0;
 				pcur = p;
+				if (d > dend) break;
 			}
 			if ((p - p0) % interval) continue;
 			if (!rf_datepred(r, d, &t0)) continue;
